@@ -66,14 +66,10 @@ def Hh(E, st, f):
 
 
 def _rc_pre(E):
-    """cross-reference invariant (C02): the reaction's metabolites and genes belong to the reaction's model"""
+    """a reaction is not among its own metabolites / genes (type discipline); nothing is assumed about the members' models:
+    they may belong to a model that the reaction itself has been removed from"""
     r = E["self"].t
-    mo = Hh(E, E.s0, "_model")
-    x = qv("rx", Ref)
-    return z3.And(FA([x], z3.Implies(Hh(E, E.s0, "_metabolites")[r][x], mo[x] == mo[r]), patterns=[mo[x]]),
-                  FA([x], z3.Implies(Hh(E, E.s0, "_genes")[r][x], mo[x] == mo[r]), patterns=[mo[x]]),
-                  z3.Not(Hh(E, E.s0, "_metabolites")[r][r]), z3.Not(Hh(E, E.s0, "_genes")[r][r]),
-                  FA([x], z3.Not(z3.And(Hh(E, E.s0, "_metabolites")[r][x], Hh(E, E.s0, "_genes")[r][x]))))
+    return z3.And(z3.Not(Hh(E, E.s0, "_metabolites")[r][r]), z3.Not(Hh(E, E.s0, "_genes")[r][r]))
 
 
 def _rc_post(E):
@@ -102,55 +98,52 @@ REG.add(Contract("copy.py", "deepcopy", "C12", [("x", TRef("Reaction"))], [Case(
                       "the reaction's own model pointer is None; existing objects are not modified"))
 
 
-def _which(E, Lc, field):
+def _members(E, x):
     r = E["self"].t
-    return Hh(E, E.s0, field)[r]
+    return z3.Or(Hh(E, E.s0, "_metabolites")[r][x], Hh(E, E.s0, "_genes")[r][x])
 
 
-def _inv(fields_done, cur_field, value_of_done):
-    """model pointers: members of the already processed sets (and the processed part of the current one) hold `value`,
-    everything else is as at entry"""
-    def inv(E, Lc):
-        r = E["self"].t
-        mo0, mo = Hh(E, E.s0, "_model"), Hh(E, Lc.st, "_model")
-        _, order, pos = Lc.seq.src
-        x = qv("ix", Ref)
-        cur = Hh(E, E.s0, cur_field)[r]
-        done = z3.Or(*([Hh(E, E.s0, f)[r][x] for f in fields_done] + [z3.And(cur[x], pos[x] < Lc.i)]))
-        return FA([x], z3.Implies(x != r, mo[x] == z3.If(done, value_of_done(E, mo0, r), value_of_entry(E, mo0, x, r))), patterns=[mo[x]])
-    return inv
+def _mm(Lc):
+    rec = Lc.st.objs[Lc.var("member_models").oid]
+    return rec["len"], rec["cols"][0], rec["cols"][1]
 
 
-def value_of_entry(E, mo0, x, r):
-    return mo0[x]
+def _mm_ok(E, Lc):
+    """member_models lists exactly the metabolites and genes, each with the model it had at entry"""
+    n, objs, mods = _mm(Lc)
+    mo0 = Hh(E, E.s0, "_model")
+    j, x, w = qv("mj"), qv("mx", Ref), qv("mw")
+    return z3.And(n >= 0,
+                  FA([j], z3.Implies(z3.And(0 <= j, j < n), z3.And(_members(E, objs[j]), mods[j] == mo0[objs[j]])), patterns=[objs[j]]),
+                  FA([x], z3.Implies(_members(E, x), z3.Exists([w], z3.And(0 <= w, w < n, objs[w] == x)))))
+
+
+def _listed_before(Lc, x, t):
+    n, objs, mods = _mm(Lc)
+    w = qv("lw")
+    return z3.Exists([w], z3.And(0 <= w, w < t, objs[w] == x))
+
+
+def _inv_clear(E, Lc):
+    r = E["self"].t
+    mo0, mo = Hh(E, E.s0, "_model"), Hh(E, Lc.st, "_model")
+    x = qv("ix", Ref)
+    return z3.And(_mm_ok(E, Lc), mo[r] == NULL,
+                  FA([x], z3.Implies(x != r, mo[x] == z3.If(_listed_before(Lc, x, Lc.i), NULL, mo0[x])), patterns=[mo[x]]))
+
+
+def _inv_restore(E, Lc):
+    r = E["self"].t
+    mo0, mo = Hh(E, E.s0, "_model"), Hh(E, Lc.st, "_model")
+    c = Lc.var("new_reaction").t
+    x = qv("ix", Ref)
+    return z3.And(_mm_ok(E, Lc), mo[r] == mo0[r], mo[c] == NULL, c != r, z3.Not(_members(E, c)),
+                  FA([x], z3.Implies(z3.And(x != r, x != c),
+                                     mo[x] == z3.If(z3.And(_members(E, x), z3.Not(_listed_before(Lc, x, Lc.i))), NULL, mo0[x])), patterns=[mo[x]]))
 
 
 _loop_mod = lambda E, Lc: [("heap", "_model")]  # noqa
 
-
-def _inv_clear(fields_done, cur):
-    return _inv(fields_done, cur, lambda E, mo0, r: NULL)
-
-
-def _inv_restore(fields_done, cur):
-    """restoring phase: processed members hold the model again, unprocessed members of mets/genes are still None"""
-    def inv(E, Lc):
-        r = E["self"].t
-        mo0, mo = Hh(E, E.s0, "_model"), Hh(E, Lc.st, "_model")
-        _, order, pos = Lc.seq.src
-        x = qv("ix", Ref)
-        mets, genes = Hh(E, E.s0, "_metabolites")[r], Hh(E, E.s0, "_genes")[r]
-        curset = Hh(E, E.s0, cur)[r]
-        restored = z3.Or(*([Hh(E, E.s0, f)[r][x] for f in fields_done] + [z3.And(curset[x], pos[x] < Lc.i)]))
-        member = z3.Or(mets[x], genes[x])
-        copy_ = Lc.var("new_reaction")
-        return z3.And(mo[r] == mo0[r], mo[copy_.t] == NULL, copy_.t != r, z3.Not(mets[copy_.t]), z3.Not(genes[copy_.t]),
-                      FA([x], z3.Implies(z3.And(x != r, x != copy_.t),
-                                         mo[x] == z3.If(z3.And(member, z3.Not(restored)), NULL, mo0[x])), patterns=[mo[x]]))
-    return inv
-
-
 REG.add(Contract(MR, "Reaction.copy", "C12", [("self", TRef("Reaction"))], [Case("any", ensures=_rc_post)], pre=_rc_pre,
                  key="Reaction.copy", result=deepcopy_result, modifies=lambda E: [("heap", "_model")],
-                 loops={0: LoopSpec(_inv_clear([], "_metabolites"), _loop_mod), 1: LoopSpec(_inv_clear(["_metabolites"], "_genes"), _loop_mod),
-                        2: LoopSpec(_inv_restore([], "_metabolites"), _loop_mod), 3: LoopSpec(_inv_restore(["_metabolites"], "_genes"), _loop_mod)}))
+                 loops={0: LoopSpec(_inv_clear, _loop_mod), 1: LoopSpec(_inv_restore, _loop_mod)}))
